@@ -405,5 +405,81 @@ FILES_CLASSES = [
           "ActionFiles / ActionDirectories rebuild the typed directory part with filepath.Dir, i.e. cleaned: for typed `a//b`, `a/./b`, `a/../a/b` the candidates no longer extend what was typed and nothing is offered"),
 ]
 
-CLASSES = CLASSES + ALG_CLASSES + SPLIT_CLASSES + CACHE_CLASSES + FILES_CLASSES
+def _sub_names(tree):
+    names = set()
+    for c in (tree.get("cmds") or [])[1:]:
+        names.add(c["name"])
+        for a in c.get("aliases") or []:
+            names.add(a)
+    return names
+
+
+def _descent_applies(i):
+    names = _sub_names(i.get("tree") or {})
+    ws = (i.get("words") or [])[:-1]
+    seen_other = False
+    for w in ws:
+        if w in names:
+            if seen_other:
+                return True
+        else:
+            seen_other = True
+    return False
+
+
+def _descent_neutral(i):
+    # sub-command names first (in their order), everything else after them
+    o = copy.deepcopy(i)
+    names = _sub_names(o.get("tree") or {})
+    ws, last = o["words"][:-1], o["words"][-1]
+    subs = [w for w in ws if w in names]
+    rest = [w for w in ws if w not in names]
+    o["words"] = subs + rest + [last]
+    return o
+
+
+def _lone_dash_applies(i):
+    ws = (i.get("words") or [])
+    return any(w in ("-", "") for w in ws[:-1]) or ws[-1:] == ["-"] and False
+
+
+def _lone_dash_neutral(i):
+    o = copy.deepcopy(i)
+    o["words"] = [("p" if w == "-" else ("q" if w == "" else w)) for w in o["words"][:-1]] + o["words"][-1:]
+    return o
+
+
+def _flags_before_applies(i):
+    return any(w.startswith("-") and w != "--" for w in (i.get("words") or [])[:-1])
+
+
+def _flags_before_neutral(i):
+    o = copy.deepcopy(i)
+    o["words"] = [w for w in o["words"][:-1] if not (w.startswith("-") and w != "--")] + o["words"][-1:]
+    return o
+
+
+def _series_after_dash_applies(i):
+    ws = i.get("words") or []
+    return "--" in ws[:-1] and len(ws[-1]) >= 2 and ws[-1].startswith("-") and not ws[-1].startswith("--")
+
+
+def _series_after_dash_neutral(i):
+    o = copy.deepcopy(i)
+    o["words"][-1] = o["words"][-1].lstrip("-")
+    return o
+
+
+PARSE_CLASSES = [
+    Class("descent_heuristics", ("C01", "C07"), ("parse",), _descent_applies, _descent_neutral,
+          "traverse descends into a sub-command as soon as a word names one, even after a positional, an empty word, a pending shorthand chain or a flag the child resolves differently; cobra's own Find / stripFlags then runs another command or hands the skipped words down (e.g. `mid pos sub <TAB>` completes sub's positional 0, cobra runs mid with [pos sub X]; `--localflag sub <TAB>` offers what cobra rejects)"),
+    Class("lone_dash_or_empty_word", ("C01", "C07"), ("parse",), _lone_dash_applies, _lone_dash_neutral,
+          "a lone `-` (and an empty word) typed earlier is a positional for pflag - it stops flag parsing in a non-interspersed command and shifts positional indices - while traverse treats `-` as flag-like and does not count it"),
+    Class("subcommand_after_parent_flags", ("C07",), ("parse",), _flags_before_applies, _flags_before_neutral,
+          "sub-command names are offered after flags of the parent were typed (`root --localflag <TAB>`), but cobra hands those flags to the sub-command, which rejects them (unknown flag) or parses them differently"),
+    Class("shorthand_series_after_dash", ("C01",), ("parse",), _series_after_dash_applies, _series_after_dash_neutral,
+          "after `--` a current word that looks like a shorthand series (`-- -c`) is still run through the pending-flag fix-up: a phantom `-` is added to the parsed words and the dash positional index is off by one"),
+]
+
+CLASSES = CLASSES + ALG_CLASSES + SPLIT_CLASSES + CACHE_CLASSES + FILES_CLASSES + PARSE_CLASSES
 BY_ID = {c.id: c for c in CLASSES}
